@@ -1,10 +1,19 @@
-# witness for the recorded C18.R2 finding: the character-wise scan over the compressed texts of the first and
-# last address stops at the shorter text; for a network whose low group is zero it finds no difference.
+# witness for the repaired C18.R2 defect (fix ed366ac): the character-wise scan over the compressed texts of the first and
+# last address stops at the shorter text; for a network whose low group is zero it found no difference and the network
+# collapsed to one address. Exit 0 + DEFECT when members of the network are matched by no pattern, exit 1 when repaired.
 import ipaddress
+import sys
 from sigma.types import SigmaCIDRExpression
-pats = SigmaCIDRExpression("1234::/124").expand()
-print(pats)
-net = ipaddress.ip_network("1234::/124")
-missed = [str(a) for a in net if not any((p.endswith("*") and str(a).startswith(p[:-1])) or str(a) == p for p in pats)]
-print("addresses matched by no pattern:", missed[:4], "...", len(missed))
-assert pats == ["1234::"] and len(missed) == 15
+bad = 0
+for cidr in ("1234::/124", "fe80::/64"):
+    pats = SigmaCIDRExpression(cidr).expand()
+    net = ipaddress.ip_network(cidr)
+    sample = [net[i] for i in (0, 1, 5, net.num_addresses - 1)]
+    missed = [str(a) for a in sample if not any((p.endswith("*") and str(a).startswith(p[:-1])) or str(a) == p for p in pats)]
+    print(cidr, pats, "members matched by no pattern:", missed)
+    bad += len(missed)
+if bad:
+    print("DEFECT: members of the network are matched by no pattern")
+    sys.exit(0)
+print("OK")
+sys.exit(1)
